@@ -353,3 +353,41 @@ pub fn shutdown_drains_flushes_closes() {
     shutdown_drains()
 }
 }
+
+queue_harness! {
+// @check C05 quick timeout=900 mem=14
+// @encodes sink::background::Receiver::{drain_until_deadline, flush_stream, shut_down}, Inner::push
+// @bounds capacity 2; one entry appended and written by a regular drain + periodic flush, then a solver-chosen number (0..=2) of further entries appended before shut_down
+// @oracle the entries written by shut_down's own drain are flushed before the stream is closed: the last flush happens after the last entry, whatever was already flushed before; the stream is dropped; every entry reaches the stream once, in order
+// @stubs tracing x4, Instant::now, alloc::fmt::format, Parker::park_deadline, Unparker::unpark, mpsc::Receiver::try_recv
+#[kani::unwind(4)]
+pub fn shutdown_flushes_what_it_drains() {
+    const CAP: usize = 2;
+    let mut dropped_flag = false;
+    let mut stream = OkStream::new(&mut dropped_flag as *mut bool);
+    stream.publish = Some(publish_final);
+    let (tx, mut rx): (hooks::Tx<IdEntry>, hooks::Rx<OkStream, IdEntry>) =
+        hooks::unspawned(stream, CAP, None, Duration::from_secs(1), Duration::from_secs(30));
+    tx.push(IdEntry(10));
+    let (drained, n) = rx.drain_until_deadline(stubs::far_future());
+    assert!(drained && n == 1);
+    rx.flush_stream(); // the periodic flush of the run loop
+    let more: u8 = kani::any();
+    kani::assume(more <= 2);
+    if more >= 1 { tx.push(IdEntry(11)); }
+    if more >= 2 { tx.push(IdEntry(12)); }
+    kani::cover!(more == 2, "two entries arrive between the last periodic flush and shutdown");
+    unsafe { FINAL_N = usize::MAX };
+    rx.shut_down();
+    assert!(dropped_flag, "stream closed");
+    unsafe {
+        assert!(FINAL_N == 1 + more as usize, "everything appended before shutdown is written");
+        let i: usize = kani::any();
+        kani::assume(i < FINAL_N);
+        assert!(FINAL_SEEN[i] == 10 + i as u8, "in order, exactly once");
+        assert!(FINAL_FLUSHES == 2, "one periodic flush and exactly one flush during shut_down");
+        assert!(FINAL_N_AT_FLUSH == FINAL_N, "the final flush covers what shut_down itself wrote");
+    }
+    core::mem::forget(tx);
+}
+}
